@@ -230,8 +230,18 @@ class ProgramGen:
                 self.parity = 0 if name == ".even" else 1
         elif k < 0.93 and self.f.get("repeat", True):
             body = []
+            odd_body = self.f.get("repeat_odd") and rng.random() < 0.5
             for _ in range(rng.randint(1, 3)):
                 kk = rng.random()
+                if odd_body and kk < 0.6:
+                    # a body whose size depends on where it is placed: odd-sized data next to '.even'
+                    body.append(rng.choice([Item(kind="dir", name=".byte", args=[("lit", rng.randrange(0, 256))]),
+                                            Item(kind="dir", name=".even", args=[]),
+                                            Item(kind="str", name=".ascii", text=rng.choice(["a", "abc", "xy"])),
+                                            Item(kind="dir", name=".byte", args=[("bin", "-", ("dot",), ("sym", self.any_symbol(True) or "."))] if False else [("lit", 7)])]))
+                    continue
+                if odd_body:
+                    body.append(Item(kind="dir", name=".even", args=[]))
                 if kk < 0.5:
                     body.append(Item(kind="insn", mn=rng.choice(ONE_OP), ops=[self.operand()]))
                 elif kk < 0.8:
@@ -241,6 +251,8 @@ class ProgramGen:
             self.align_even()
             cnt = ("lit", rng.randrange(0, 5))
             self.items.append(Item(kind="repeat", count=cnt, body=body))
+            if odd_body:
+                self.parity = None
         elif k < 0.96 and self.f.get("skip", True):
             self.items.append(Item(kind="skip", delta=rng.randrange(0, 9)))
             self.parity = None
